@@ -121,3 +121,32 @@ fn c18_leaf_total_exact() {
         }
     }
 }
+
+// Whole-segment conversion, header part: the segment header travels as a prost-encoded byte field
+// inside the PathSegment message. proto3 omits zero fields, so timestamp 0 / segment id 0 is the
+// empty byte string (after seed C18-empty-segment-info). AS entries: none (their conversion needs
+// signed prost bodies, not decided).
+// Measured: no verdict in 1200 s at 6.6 GB (prost varint encode/decode through Vec<u8> with symbolic values): tier=off.
+// verif: prop=C18 tier=off cap=1200 mem=16 bound="segment header with every timestamp (u32) and segment id (u16), zero AS entries: native -> prost bytes -> SignedPathSegment::try_from_rpc" fns="SignedPathSegment::try_from_rpc, SegmentInfo::{into_rpc,try_from_rpc}, prost SegmentInformation::{encode_to_vec,decode}" stubs="alloc::fmt::format -> empty string"
+#[kani::proof]
+#[kani::unwind(12)]
+#[kani::stub(alloc::fmt::format, fmt_stub)]
+fn c18_segment_header_wire() {
+    let ts: u32 = kani::any();
+    let id: u16 = kani::any();
+    let si = SegmentInfo::new(ts, id);
+    let bytes = si.into_rpc().encode_to_vec();
+    kani::cover!(bytes.is_empty(), "header encoded as the empty byte string");
+    kani::cover!(bytes.len() > 6, "header with two multi-byte varints");
+    let msg = pb::PathSegment { segment_info: bytes, as_entries: Vec::new() };
+    match SignedPathSegment::try_from_rpc(msg) {
+        Ok(s) => {
+            assert!(s.info.timestamp == ts && s.info.segment_id == id, "segment header changed by the RPC round trip");
+            assert!(s.as_entries.is_empty(), "AS entries invented by the RPC conversion");
+            std::mem::forget(s);
+        }
+        Err(_) => {
+            assert!(false, "segment header rejected after into_rpc");
+        }
+    }
+}
